@@ -662,11 +662,15 @@ pub fn generate(r: &mut Rng, opts: &GenOpts) -> Universe {
                 zi
             };
             let tz_apex = u.zones[target_zone].apex.clone();
-            let target = match r.below(5) {
-                0 => child_name("missing", &tz_apex),
-                1 if k > 0 => child_name(&format!("alias{}", k - 1), &apex),
-                2 => child_name("mail", &tz_apex),
-                _ => child_name("www", &tz_apex),
+            let target = if k > 0 && r.chance(0.4) {
+                // a chain of aliases
+                child_name(&format!("alias{}", k - 1), &apex)
+            } else {
+                match r.below(4) {
+                    0 => child_name("missing", &tz_apex),
+                    1 => child_name("mail", &tz_apex),
+                    _ => child_name("www", &tz_apex),
+                }
             };
             let t = ttl_of(r);
             u.zones[zi].records.push(Rec::new(&owner, &format!("CNAME {target}"), t));
